@@ -20,6 +20,15 @@ def main():
     src = os.path.realpath(os.path.dirname(os.path.dirname(gambatools.__file__)))
     want = os.path.realpath(os.environ.get('GT_SRC', '/repo/src'))
     assert src == want, 'gambatools imported from %s, expected %s' % (src, want)
+    if os.environ.get('VERIF_RECYCLE') == '1':
+        # the object-recycling pass also runs under NON-DEFAULT GLOBAL SETTINGS that must not influence the property: the PDA closure
+        # limit set to 3 where no PDA is involved (PDA_FREE), logging switched on where no output is read back (LOG_SAFE)
+        from gambatools.global_settings import GambaTools
+        if getattr(mod, 'PDA_FREE', False):
+            GambaTools.pda_epsilon_closure_max_iterations = 3
+        if getattr(mod, 'LOG_SAFE', False):
+            GambaTools.enable_logging = True
+            sys.stdout = open(os.devnull, 'w')
     out = []
     import conv
     for c in cases:
